@@ -423,6 +423,35 @@ def annotation_of(env: "TypeEnv", e: ast.AST, depth: int = 0) -> Optional[ast.AS
             m = prog.lookup(ci, e.attr)
             if m is not None and (m.is_property or "cached_property" in m.decorators):
                 return m.node.returns
+        # an attribute that is only ever assigned (`self._x = None` ... `self._x = f(...)`):
+        # the union of what is assigned to it
+        if isinstance(e.value, ast.Name) and e.value.id == "self" and depth < 3:
+            for ci in classes_of(env.type_of(e.value)):
+                defs = []
+                for c in prog.mro(ci):
+                    for m in c.methods.values():
+                        for st in walk_no_nested(m.node):
+                            if isinstance(st, (ast.Assign, ast.AnnAssign)) and getattr(
+                                    st, "value", None) is not None:
+                                tg = st.targets[0] if isinstance(st, ast.Assign) else st.target
+                                if isinstance(tg, ast.Attribute) and tg.attr == e.attr and \
+                                        isinstance(tg.value, ast.Name) and tg.value.id == "self":
+                                    if isinstance(st, ast.AnnAssign):
+                                        return st.annotation
+                                    defs.append((m, st.value))
+                none = [d for _m, d in defs if isinstance(d, ast.Constant) and d.value is None]
+                anns = []
+                for m, d in defs:
+                    if isinstance(d, ast.Constant) and d.value is None:
+                        continue
+                    a = annotation_of(TypeEnv(prog, m), d, depth + 1)
+                    if a is not None:
+                        anns.append(a)
+                if anns and all(ast.unparse(a) == ast.unparse(anns[0]) for a in anns):
+                    a = anns[0]
+                    if none and not is_optional_value_annotation(a):
+                        return ast.Subscript(ast.Name("Optional", ast.Load()), a, ast.Load())
+                    return a
         return None
     if isinstance(e, ast.Call):
         if isinstance(e.func, ast.Attribute) and e.func.attr == "get" and len(e.args) <= 1:
